@@ -78,12 +78,12 @@ PROPS["C15"] = {
 }
 
 PROPS["C12"] = {
-    "units": ["web_payload_body", "web_form_body", "multipart_payload"],
+    "units": ["web_payload_body", "web_form_body", "multipart_payload", "web_json_body"],
     "kani": [],
     "technique": "Verus contracts with a loop invariant over a prophesied chunk sequence: the extractor's poll loop computes exactly the limit-checked fold `collect`; chunking independence as a lemma",
-    "level_text": "deductive proof, for all chunk sequences and limits, that UrlEncoded (form extractor) refuses a declared over-limit Content-Length before reading and otherwise fails with Overflow exactly when a prefix sum of the decoded chunks exceeds the limit (the async block is lifted verbatim into a function, R9b); and, for all chunk sequences, limits and suspension points, that HttpMessageBody::poll (bytes/string extractors) returns exactly collect(chunks, limit): the concatenation if it fits, Overflow as soon as a prefix sum exceeds the limit, the stream's error otherwise; that it never holds more than `limit` bytes (plus the chunk in hand); that a declared Content-Length above the limit is refused before reading (limit()); and (lemma) that the outcome is a function of the concatenation and the limit only; the multipart buffer bound is PayloadBuffer's (C15 unit)",
+    "level_text": "deductive proof, for all chunk sequences and limits, that UrlEncoded (form extractor) refuses a declared over-limit Content-Length before reading and otherwise fails with Overflow exactly when a prefix sum of the decoded chunks exceeds the limit (the async block is lifted verbatim into a function, R9b); and, for all chunk sequences, limits and suspension points, that HttpMessageBody::poll (bytes/string extractors) returns exactly collect(chunks, limit): the concatenation if it fits, Overflow as soon as a prefix sum exceeds the limit, the stream's error otherwise; the same for JsonBody::poll (JSON extractor: the deserialiser is handed exactly the collected bytes, only after the stream ended within the limit; Overflow{limit} otherwise) and JsonBody::limit (a declared Content-Length above the limit becomes OverflowKnownLength before anything is read); that it never holds more than `limit` bytes (plus the chunk in hand); that a declared Content-Length above the limit is refused before reading (limit()); and (lemma) that the outcome is a function of the concatenation and the limit only; the multipart buffer bound is PayloadBuffer's (C15 unit)",
     "level_note": "assumes a finite body stream (prophesied remainder) that obeys the Stream contract, BytesMut/Bytes shims, allocations <= isize::MAX; the decompressor wrapped around the payload is a dependency (the limit applies to its output because the field `stream` has type Decompress<Payload> - checked structurally by the extracted struct)",
-    "not_decided": ["JsonBody::poll, body::to_bytes_limited and the multipart form field limits (same loop shape; not yet under contract)", "content decoding itself (flate2/brotli/zstd)", "UrlEncoded: suspension points of the async block (R9 runs it eagerly; value-level outcome only)"],
+    "not_decided": ["body::to_bytes_limited (async fn around a poll_fn closure that captures the buffer mutably: outside the Verus subset) and the multipart form field limits", "content decoding itself (flate2/brotli/zstd)", "UrlEncoded: suspension points of the async block (R9 runs it eagerly; value-level outcome only)"],
     "assumptions": ["HttpMessageBody::poll precondition: the buffer starts within the limit (established by new(): empty buffer)"],
 }
 
